@@ -561,8 +561,13 @@ func evalHiddenCase(lc LayerCase, b *Batch, res *Result, distinct map[string]str
 		res.count("hidden.refused." + errClass(ierr))
 		distinct[key] = struct{}{}
 	case c.M == "removeall":
-		// multi-call program (modelled separately): here only "it proceeds to Lstat(name)"
-		if calls[0].Method == "lstat" && calls[0].Args[0] == c.A[0] {
+		// multi-call program (modelled separately): here only "it proceeds to Lstat of the name it
+		// works with" — the cleaned name, the empty name as it is (rmName in Model/FSI.lean)
+		want := c.A[0]
+		if want != "" {
+			want = filepath.Clean(want)
+		}
+		if calls[0].Method == "lstat" && calls[0].Args[0] == want {
 			impl = line("call", "removeall", c.A[0])
 		} else {
 			impl = "unexpected first call " + calls[0].String()
